@@ -103,6 +103,9 @@ func (e *EventEmitter) handleSubscriber(ctx context.Context, sub event.Subscript
 	cevent := make(chan Event, 16)
 	condProcess := sync.NewCond(&sync.Mutex{})
 	queue := list.New()
+	// set (under condProcess.L) while the second goroutine holds an event it
+	// took from the queue and has not delivered yet
+	delivering := false
 	wg := sync.WaitGroup{}
 
 	wg.Add(1)
@@ -124,7 +127,9 @@ func (e *EventEmitter) handleSubscriber(ctx context.Context, sub event.Subscript
 			}
 
 			condProcess.L.Lock()
-			if queue.Len() == 0 {
+			// the channel can only be used directly when nothing older is waiting:
+			// neither in the queue nor in the hands of the second goroutine
+			if queue.Len() == 0 && !delivering {
 				// try to push event to the queue
 				select {
 				case cevent <- e:
@@ -153,6 +158,7 @@ func (e *EventEmitter) handleSubscriber(ctx context.Context, sub event.Subscript
 			}
 
 			e := queue.Remove(queue.Front())
+			delivering = true
 
 			// Unlock cond mutex while sending the event
 			condProcess.L.Unlock()
@@ -163,6 +169,7 @@ func (e *EventEmitter) handleSubscriber(ctx context.Context, sub event.Subscript
 			}
 
 			condProcess.L.Lock()
+			delivering = false
 		}
 		condProcess.L.Unlock()
 
